@@ -219,6 +219,65 @@ PROPS = {
                 "token k under layout B. Non-trivial: the layouts differ in a comment or a line break.",
         "assumptions": COMMON_ASSUMPTIONS,
     },
+    "C15": {
+        "level": "exploration",
+        "jobs": [
+            {"test": "TestC15Enum", "kind": "enum"},
+            {"test": "TestC15", "kind": "rapid", "quick": 40000, "thorough": 800000},
+        ],
+        "floors": {"literal:within": ("job:TestC15", 0.1), "literal:outside": ("job:TestC15", 0.2), "variable:small-bounds": ("job:TestC15", 0.03), "variable:huge-bounds": ("job:TestC15", 0.01)},
+        "rule": "exhaustive: 4 declaration forms x 14 item types x lower, upper, actual element count in 0..5 (literal items, alone and as list children; lists of literal children); ASCII "
+                "variables with every form and bounds 0..5 directly and carried through a list expansion; NewASCIINodeVariable over a grid of (min, max) incl. invalid ones. Random: bounds "
+                "with 1-25 digits incl. 2^31, 2^63, 2^64 borders, blanks inside the brackets, counts near the declared bounds. Oracle: a literal is accepted iff lower <= count <= upper "
+                "(math/big; missing bound = unbounded) and then holds exactly that many elements; otherwise no message and an error at the line/column of the '[' token; an ASCII variable "
+                "keeps its bounds (printed back for bounds that fit, fixed point of print/parse), strings are accepted iff their length lies inside (probed at lower-1, lower, upper, upper+1, "
+                "0, 5), lower > upper is an error, FillInStringLength() returns the constructor arguments. Non-trivial: count within 1 of a declared bound, or a variable case.",
+        "exhaustive_note": {"quick": "exhaustive small-number part runs in both tiers", "thorough": "exhaustive small-number part runs in both tiers"},
+        "notes": ["when the lower bound exceeds 2^63-1 (no string can satisfy it) the outcome of lower > upper is not pinned"],
+        "assumptions": COMMON_ASSUMPTIONS,
+    },
+    "C19": {
+        "level": "exploration",
+        "jobs": [{"test": "TestC19", "kind": "rapid", "quick": 40000, "thorough": 800000}],
+        "floors": {"shared-variable-name": ("job:TestC19", 0.15), "ellipses-in-2+-texts": ("job:TestC19", 0.05), "warnings-compared": ("job:TestC19", 0.1)},
+        "rule": "2..4 accepted texts (1-2 generated messages each, drawn spellings and layouts, trailing blanks / newline-terminated comments), half of the time re-using the previous "
+                "text's template so that variable names and ellipses recur, joined by {nothing, blanks, LF, CRLF, TAB, blank line, comment+LF}. Oracle: Parse(join) has no errors and returns "
+                "the concatenation of the individual results (header fields, String(), Variables(), session id, bytes once completed from the printed form); warnings equal in text with "
+                "positions shifted by the known line/column offset. Texts that are not accepted alone are excluded and counted. Non-trivial: >= 2 texts sharing a variable name or both "
+                "containing an ellipsis.",
+        "assumptions": COMMON_ASSUMPTIONS,
+    },
+    "C07": {
+        "level": "exploration",
+        "jobs": [
+            {"test": "TestC07", "kind": "rapid", "quick": 40000, "thorough": 600000},
+            {"test": "TestC07Known", "kind": "plain", "shards": 1},
+        ],
+        "fuzz": [{"fuzz": "FuzzC07", "budget_s": 180}],
+        "floors": {"declared-length-exceeds-input": ("job:TestC07", 0.2), "input>64KiB": ("job:TestC07", 0.03), "gen:chain": ("job:TestC07", 0.04), "decoded:ok": ("job:TestC07", 0.1)},
+        "rule": "byte strings decoded in an isolated worker process (address space limited to 4 GiB): short inputs declaring huge lengths (1/2/3 length bytes FF.., every format, nesting "
+                "depth 0..64), long valid items (64 KiB..256 KiB quick / 4 MiB thorough of A, B, BOOLEAN, I1, I2, U8, F4 and lists of small items), truncated items with patched outer "
+                "length, nested chains up to the depth cap, wide lists of lists, random bytes with and without a correct frame. Oracle: the call returns normally (an escaping panic or a "
+                "process death is a violation) and the runtime.MemStats.TotalAlloc delta around the call is <= 256 KiB + 4096 x len(input). Non-trivial: the outer length is correct and "
+                "some declared item length exceeds the bytes that remain, or the input is longer than 64 KiB.",
+        "notes": ["generators cap list nesting at 2000 (decoding time is quadratic in depth); the open known finding on extreme nesting (fatal stack overflow at ~10M levels) is reproduced by TestC07Known on every run",
+                  "worst legitimate allocation ratio observed is far below the limit (see labels alloc-ratio>=256 / >=1024)"],
+        "assumptions": COMMON_ASSUMPTIONS + ["TotalAlloc of the worker process around one Parse call is attributed to that call (the worker is single-threaded apart from the runtime)"],
+    },
+    "C17": {
+        "level": "exploration",
+        "race": True,
+        "jobs": [{"test": "TestC17", "kind": "rapid", "quick": 4000, "thorough": 120000, "race": True, "gomaxprocs": [2, 4, 8, 16, 3, 16, 1, 6]}],
+        "parallel": 8,
+        "floors": {"goroutines=8": ("job:TestC17", 0.3), "goroutines=32": ("job:TestC17", 0.05)},
+        "rule": "rapid draws shared objects (an item template with variables and ellipses, a data message around it, a complete message, an SML text - sometimes with an error - and an "
+                "HSMS encoding - sometimes truncated) and a list of 2..8 operations out of 17 (String, ToBytes, Variables, Size, FillVariables incl. ellipsis expansion, Header, SetWaitBit, "
+                "SetSessionIDAndSystemBytes, SystemBytes with a write to the returned slice, sml.Parse, hsms.Parse, building a new list that shares the item). The operations are run sequentially "
+                "for the expected results, then by 2..32 goroutines released together, 1..4 rounds, with GOMAXPROCS varied per shard. Oracle: binary built with -race and GORACE=halt_on_error "
+                "(any report fails the run, the case in flight is the replay), and every concurrent result equals the sequential one. Non-trivial: >= 2 goroutines applying >= 1 producer.",
+        "notes": ["schedules are sampled, not enumerated: the harness does not own the Go scheduler. The race detector's happens-before analysis reports a racy pair of accesses on (almost) any run in which both execute"],
+        "assumptions": COMMON_ASSUMPTIONS + ["Go race detector (ThreadSanitizer runtime) reports unsynchronised conflicting accesses that actually execute"],
+    },
     "C02": {
         "level": "exploration",
         "jobs": [
@@ -246,6 +305,29 @@ NOT_APPLICABLE = {}
 
 _PBT = "property-based testing (pgregory.net/rapid generators + shrinking)"
 MANIFEST_TEXT = {
+    "C17": {
+        "technique": _PBT + " over operation mixes executed by many goroutines under the Go race detector; differential oracle concurrent result == sequential result",
+        "level_text": "Sampled schedules: generated mixes of read-only and producer operations on shared objects and concurrent parser invocations, 2..32 goroutines, varied GOMAXPROCS, race-detector build. "
+                      "This family cannot enumerate interleavings; the check realistically detects shared mutable state (caches, memoisation, shared buffers) through the race detector.",
+        "level_note": "Limits: interleavings are those the runtime happens to produce; a logic error that needs a particular interleaving but involves no data race may be missed.",
+    },
+    "C07": {
+        "technique": "fuzzing with structured hostile-length generators (rapid) in an isolated worker process with an address-space limit + native coverage-guided go fuzzing (thorough); totality and allocation-bound oracle",
+        "level_text": "Generated hostile and long inputs are decoded in a separate process so that fatal runtime errors are observable; total allocation is measured per call and compared with a "
+                      "fixed linear bound. The open known finding on extreme nesting is reproduced on every run and excluded from the generators by a depth cap.",
+        "level_note": "Limits: 4 GiB address space, linear bound 256 KiB + 4096 B per input byte (legitimate use stays about one order of magnitude below), nesting cap 2000.",
+    },
+    "C19": {
+        "technique": "metamorphic " + _PBT + ": Parse(t1+sep+t2+...) must equal the concatenation of Parse(ti), warnings modulo the known position shift",
+        "level_text": "Generated sequences of accepted texts with deliberately recurring variable names and ellipses, joined by every separator the grammar allows after a terminator.",
+        "level_note": "Trusted: observational equality of messages (header fields, printed form, variables, completed bytes) stands for deep equality, as a DataMessage exposes no item accessor.",
+    },
+    "C15": {
+        "technique": "exhaustive enumeration of small (form, type, lower, upper, count) tuples + " + _PBT + " for large/overflowing bounds; oracle lower <= count <= upper computed with math/big, error position known by construction",
+        "level_text": "The small-number space is enumerated completely on every run; random generation covers many-digit bounds, blanks and boundary counts; ASCII-variable bounds are checked "
+                      "through print-back and fill probes at both edges, also after a list expansion.",
+        "level_note": "Trusted: the text builder in c15_test.go knows where the '[' token is.",
+    },
     "C08": {
         "technique": "metamorphic " + _PBT + ": the same token sequence under two generated layouts / letter cases must parse to the same messages and diagnostics (positions mapped token by token)",
         "level_text": "Generated pairs of layouts over valid and invalid token sequences; relation checked on messages, diagnostic texts and diagnostic positions.",
